@@ -387,7 +387,11 @@ def check_case(case, ctx):
                                                          ["other.txt", "f", "o\n", {}]]}]]
         sel = "/" + prefix + "arch.zip/in/" + name
     else:
-        spec = [[prefix + name, "f", world.u(stored)], [prefix + "zz-other.txt", "f", "o\n"]]
+        # (permission bits the server's account can read through all the same: group- or owner-only files)
+        mode = (None, None, 0o640, 0o600, 0o604)[case["seed"] % 5]
+        spec = [[prefix + name, "f", world.u(stored)] + ([mode] if mode else []), [prefix + "zz-other.txt", "f", "o\n"]]
+        if mode:
+            ctx.label("mode:%o" % mode)
         sel = "/" + prefix + name
     d, root = world.build(spec)
     fails = []
